@@ -625,8 +625,13 @@ def c11(ctx, tr):
     for op, text in texts:
         r = parse_results(text)
         M = r['matching']
-        if M is None or not _is_plain(M) or len(M) != I.n1 or \
-                not rm.acceptable(I, M):
+        if M is not None and _is_plain(M) and len(M) != I.n1:
+            # "student i's project is the i-th number": one number per student
+            res['violations'].append(
+                ('matching-line-length', op,
+                 {'entries': len(M), 'students': I.n1}))
+            return res
+        if M is None or not _is_plain(M) or not rm.acceptable(I, M):
             res['skipped'] = 'c01-class:matching-line'
             return res
         if first_M is None:
